@@ -76,6 +76,9 @@ enum Op {
     ReloadRacing { t: u8, val: Val, cs: u8 },
     /// modify whose closure keeps the write lock while a helper thread emits `cs`
     ModifyHeld { t: u8, val: Val, cs: u8 },
+    /// reload to `val`; while its cache rebuild is walking the callsites (at the k-th
+    /// register_callsite call) a helper thread starts a second reload to `val2`
+    ReloadDuringRebuild { t: u8, val: Val, val2: Val, k: u8 },
     /// drop every handle to the collector, then reload must fail with is_dropped()
     DropCollectorThenReload { val: Val },
 }
@@ -186,6 +189,8 @@ fn run_case(case: &Case) -> Outcome {
     }
     // helper thread for racing emissions
     let (req_tx, req_rx): (Sender<u8>, Receiver<u8>) = channel();
+    let helper_reload: Arc<Mutex<Option<Val>>> = Arc::new(Mutex::new(None));
+    let (hr, hh) = (helper_reload.clone(), handle.clone());
     let (done_tx, done_rx): (Sender<()>, Receiver<()>) = channel();
     let hd = dispatch.clone().unwrap();
     let helper = std::thread::spawn(move || {
@@ -195,6 +200,14 @@ fn run_case(case: &Case) -> Outcome {
         while let Ok(cs) = req_rx.recv() {
             if cs == 255 {
                 break;
+            }
+            if cs == 254 {
+                let v = hr.lock().unwrap().take();
+                if let Some(v) = v {
+                    let _ = hh.reload(&v, false, None);
+                }
+                let _ = done_tx.send(());
+                continue;
             }
             emit_event(cs);
             let _ = done_tx.send(());
@@ -351,6 +364,58 @@ fn run_case(case: &Case) -> Outcome {
                 last_hit_thread[cs as usize] = Some(9);
                 classes.push("emission_while_modify_holds_lock".into());
             }
+            Op::ReloadDuringRebuild { t, val, val2, k } => {
+                let t = *t as usize % 2;
+                *helper_reload.lock().unwrap() = Some(val2.clone());
+                let calls = Arc::new(std::sync::atomic::AtomicU32::new(0));
+                let (rq, kk) = (req_tx.clone(), 1 + (*k as u32 % 4));
+                *vp_sub::REGISTER_HOOK.lock().unwrap() = Some(Arc::new(move || {
+                    if calls.fetch_add(1, std::sync::atomic::Ordering::SeqCst) + 1 == kk {
+                        let _ = rq.lock().unwrap().send(254);
+                        // give the helper time to store its value while this rebuild is under way
+                        std::thread::sleep(std::time::Duration::from_millis(3));
+                    }
+                }));
+                let (h, v) = (handle.clone(), val.clone());
+                let r = st.run(t, move |_| h.reload(&v, false, None).is_ok());
+                *vp_sub::REGISTER_HOOK.lock().unwrap() = None;
+                match r {
+                    Ok(true) => {}
+                    Ok(false) => fail!(i, "reload failed although the collector is alive", "Err returned"),
+                    Err(e) => fail!(i, "panic: reload", "{e}"),
+                }
+                // if no callsite was registered yet the hook never fired: run the helper now
+                if helper_reload.lock().unwrap().is_some() {
+                    let _ = req_tx.lock().unwrap().send(254);
+                }
+                if done_rx.lock().unwrap().recv_timeout(std::time::Duration::from_secs(10)).is_err() {
+                    std::mem::forget(st);
+                    return Outcome { verdict: vp_engine::Verdict::Inconclusive("helper reload did not finish within 10 s".into()), nontrivial: false, classes: vec![], excluded_known: 0 };
+                }
+                count(&log1, 0);
+                count(&log2, 0);
+                cur = val2.clone();
+                classes.push("second_reload_during_cache_rebuild".into());
+                if let Err(e) = check_max(&cur) {
+                    fail!(i, "published max level wrong after reload", "{e}");
+                }
+                // every callsite hit so far must now be judged by the second value
+                for cs in 0..15u8 {
+                    if !hit[cs as usize] {
+                        continue;
+                    }
+                    if let Err(e) = st.run(t, move |_| emit_event(cs)) {
+                        fail!(i, "panic: emit", "{e}");
+                    }
+                    let (w1, w2) = (l1_accepts(&cur, cs), l2_accepts(&cur, cs));
+                    let (g1, g2) = (count(&log1, cs), count(&log2, cs));
+                    if g1 != w1 as usize || g2 != w2 as usize {
+                        fail!(i, "after two overlapping reloads an emission is judged by the value of the first one", "callsite {cs}: filtered leaf got {g1} (expected {}), neighbour got {g2} (expected {})", w1 as u8, w2 as u8);
+                    }
+                    verdict_at_hit[cs as usize] = Some(w1);
+                    last_hit_thread[cs as usize] = Some(t as u8);
+                }
+            }
             Op::DropCollectorThenReload { val } => {
                 let _ = req_tx.lock().unwrap().send(255);
                 for t in 0..2 {
@@ -416,6 +481,7 @@ impl Property for C12 {
             3 => (t(), val_strategy()).prop_map(|(t, val)| Op::Reload { t, val }),
             1 => (t(), val_strategy()).prop_map(|(t, val)| Op::Modify { t, val }),
             1 => (t(), val_strategy(), cs()).prop_map(|(t, val, cs)| Op::ReloadRacing { t, val, cs }),
+            1 => (t(), val_strategy(), val_strategy(), 0u8..4).prop_map(|(t, val, val2, k)| Op::ReloadDuringRebuild { t, val, val2, k }),
         ];
         let max = tier.pick(24usize, 40usize);
         let kind = prop_oneof![Just(Kind::GlobalInner), Just(Kind::GlobalOuter), Just(Kind::PerLayer)];
@@ -436,7 +502,7 @@ impl Property for C12 {
         run_case(case)
     }
     fn rule(&self) -> String {
-        "histories of <=24 (thorough <=40) ops {Emit at one of 15 level x target macro callsites on thread A or B, Reload, Modify, Reload with an emission on a helper thread between write-unlock and cache rebuild (hook), Modify holding the lock while the helper emits (6% of cases), drop collector then reload (15%)} over a stack with one reloadable Option<filter> (global layer inside / outside, or per-layer filter) between values {LevelFilter, Targets table, static EnvFilter table, None}, plus an unfiltered neighbour layer; fresh process per history. non-trivial: a reload flips the verdict of a callsite that was hit before and the next hit of that callsite comes from the other thread; distinct by case".into()
+        "histories of <=24 (thorough <=40) ops {Emit at one of 15 level x target macro callsites on thread A or B, Reload, Modify, Reload with an emission on a helper thread between write-unlock and cache rebuild (hook), Reload during whose cache rebuild a helper thread starts a second reload (hook in a layer's register_callsite), Modify holding the lock while the helper emits (6% of cases), drop collector then reload (15%)} over a stack with one reloadable Option<filter> (global layer inside / outside, or per-layer filter) between values {LevelFilter, Targets table, static EnvFilter table, None}, plus an unfiltered neighbour layer; fresh process per history. non-trivial: a reload flips the verdict of a callsite that was hit before and the next hit of that callsite comes from the other thread; distinct by case".into()
     }
     fn assumptions(&self) -> Vec<String> {
         vec![
